@@ -17,3 +17,9 @@ def tasks(tier, seed):
     return [
         func("bt.core.StrategyBase.update", variant="flat"),
     ]
+
+
+def replay(o):
+    from pyvc.concrete import replay_scenario
+
+    return replay_scenario(o)
